@@ -43,9 +43,16 @@ func (c *connLog) note(conn int, f frameIn) {
 }
 
 // outcome of the peer for one recovery attempt (after the initial connection #1)
-//   refuse | drop | unauth | status7 | silent | ok
+//
+//	refuse | drop | unauth | status7 | silent | ok
 func recoveryScenario(name string, quick bool, outcomes []string, expired, token bool, maxRec int) {
-	register(&scenario{Name: name, Props: []string{"C08", "C17"}, Quick: quick, TimeoutU: 900, Run: func(t *T) {
+	lossKind := "drop"
+	if strings.Contains(name, "/close-packet-") {
+		lossKind = "close-packet"
+	} else if strings.Contains(name, "/garbage-") {
+		lossKind = "garbage"
+	}
+	register(&scenario{Name: name, Props: []string{"C08", "C17", "C16"}, Quick: quick, TimeoutU: 900, Run: func(t *T) {
 		p := newPeer(t, t.Transport, t.Version)
 		defer p.Shutdown()
 		cl := &connLog{first: map[int]string{}, all: map[int][]string{}}
@@ -69,6 +76,7 @@ func recoveryScenario(name string, quick bool, outcomes []string, expired, token
 		if expired {
 			expiresIn = 5 * time.Second // inside the 10 s safety margin: counts as expired
 		}
+		var firstSeen sync.Map
 		p.onFrame = func(pc *peerConn, f frameIn) {
 			if f.WsKind != "" && f.WsKind != "binary" {
 				stdReply(pc, f)
@@ -78,6 +86,17 @@ func recoveryScenario(name string, quick bool, outcomes []string, expired, token
 			if f.Typ != 1 {
 				return
 			}
+			// ONE CONNECTION AT A TIME: when a newer connection carries its first frame, every older one must be closed
+			if _, seen := firstSeen.LoadOrStore(pc.N, true); !seen && pc.N >= 2 {
+				go func(n int) {
+					time.Sleep(t.U(4))
+					for _, o := range p.Conns() {
+						if o.N < n && !o.Ended() {
+							t.Check("one_connection", false, "connection #%d was still open 4 units after connection #%d had carried its first frame (older connections must be closed before the new one is used)", o.N, n)
+						}
+					}
+				}(pc.N)
+			}
 			if pc.N == 1 {
 				switch f.Cmd {
 				case 2:
@@ -85,7 +104,16 @@ func recoveryScenario(name string, quick bool, outcomes []string, expired, token
 				case 100:
 					pc.Send(respFrame(f, 0, f.Body))
 				case 199: // the loss
-					pc.Drop()
+					switch {
+					case lossKind == "close-packet" && pc.ws != nil:
+						pc.WsControl(8, []byte{0x03, 0xe8})
+					case lossKind == "close-packet":
+						pc.Send(pushFrame(0, nil))
+					case lossKind == "garbage":
+						pc.SendRaw([]byte{0x0f, 0xee, 0x01, 0x02, 0x03, 0x04, 0x05, 0x06})
+					default:
+						pc.Drop()
+					}
 				}
 				return
 			}
@@ -211,6 +239,11 @@ func recoveryScenario(name string, quick bool, outcomes []string, expired, token
 			t.Check("one_recovery_per_loss", p.Dials() == dials, "%d further connection(s) were opened after the recovery had succeeded (one loss must cause one recovery)", p.Dials()-dials)
 		}
 		c.Close(nil)
+		// C16: a closed client leaves nothing behind — also no half-established connection of a failed attempt
+		t.Sleep(6)
+		n, where := libGoroutines()
+		t.Check("client_threads_exit", n == 0, "%d library goroutine(s) alive after the recovery history and Close: %s", n, where)
+		t.Check("sockets_released", p.Open() == 0, "%d socket(s) still open at the peer after Close (connections of failed attempts must be closed too)", p.Open())
 	}})
 }
 
@@ -221,15 +254,21 @@ func init() {
 	recoveryScenario("c08/unauthenticated-fallback", true, []string{"unauth"}, false, true, 0)
 	recoveryScenario("c08/drop-then-ok", true, []string{"drop", "ok"}, false, true, 0)
 	recoveryScenario("c08/refuse-then-ok", true, []string{"refuse", "ok"}, false, true, 0)
-	recoveryScenario("c08/status7-then-ok", false, []string{"status7", "ok"}, false, true, 0)
-	recoveryScenario("c08/silent-then-ok", false, []string{"silent", "ok"}, false, true, 0)
+	recoveryScenario("c08/close-packet-resume-silent-then-ok", true, []string{"silent", "ok"}, false, true, 0)
+	recoveryScenario("c08/garbage-resume-ok", true, []string{"ok"}, false, true, 0)
+	recoveryScenario("c08/status7-then-ok", true, []string{"status7", "ok"}, false, true, 0)
+	recoveryScenario("c08/silent-then-ok", true, []string{"silent", "ok"}, false, true, 0)
 	recoveryScenario("c08/hitmax-2", true, []string{"drop", "drop", "drop"}, false, true, 2)
 	recoveryScenario("c08/hitmax-1-refuse", false, []string{"refuse", "refuse"}, false, true, 1)
 	recoveryScenario("c08/max3-succeeds-at-2", false, []string{"drop", "ok"}, false, true, 3)
 
 	// C15 keepalive. interval 2 units, timeout 4 units.
 	kaScenario := func(name string, quick bool, token bool, answer func(n int, conn int) bool, dropFirst bool, expectRecycle bool) {
-		register(&scenario{Name: name, Props: []string{"C15", "C17"}, Quick: quick, Run: func(t *T) {
+		latencyU := 0 // peer answers after this many units
+		if strings.Contains(name, "slow-peer") {
+			latencyU = 3
+		}
+		register(&scenario{Name: name, Props: []string{"C15", "C17", "C08"}, Quick: quick, Run: func(t *T) {
 			p := newPeer(t, t.Transport, t.Version)
 			defer p.Shutdown()
 			var mu sync.Mutex
@@ -247,10 +286,17 @@ func init() {
 						mu.Lock()
 						lastAnswered = time.Now()
 						mu.Unlock()
-						if pc.ws != nil {
-							pc.WsControl(10, f.Body)
+						reply := func() {
+							if pc.ws != nil {
+								pc.WsControl(10, f.Body)
+							} else {
+								pc.Send(respFrame(f, 0, f.Body))
+							}
+						}
+						if latencyU > 0 {
+							go func() { time.Sleep(t.U(latencyU)); reply() }()
 						} else {
-							pc.Send(respFrame(f, 0, f.Body))
+							reply()
 						}
 					}
 					return
@@ -265,6 +311,10 @@ func init() {
 			cfg := defaultCfg()
 			cfg.Token = token
 			cfg.KeepaliveU, cfg.KeepaliveTimeoutU = 2, 4
+			if latencyU > 0 {
+				cfg.KeepaliveTimeoutU = 8 // latency 3 > interval 2, well inside the timeout 8
+			}
+			cfg.TimeoutOptionFirst = strings.Contains(name, "option-order")
 			c, err := t.NewClient(p, cfg)
 			if err != nil {
 				t.Check("setup", false, "dial: %v", err)
@@ -277,6 +327,17 @@ func init() {
 				t.Sleep(8)
 				p.Refuse(false)
 				t.Sleep(34)
+			}
+			if strings.Contains(name, "after-recovery") && !dropFirst || strings.Contains(name, "first-conn-dead") {
+				// the first connection is dead by script: wait for the (one, legitimate) keepalive-caused recovery
+				for i := 0; i < 300 && p.Dials() < 2; i++ {
+					time.Sleep(t.U(1) / 5)
+				}
+				if p.Dials() < 2 {
+					t.Check("detects_dead", false, "the first connection never answers heartbeats and was not recycled within 60 units")
+					return
+				}
+				t.Sleep(1)
 			}
 			dials0 := p.Dials()
 			t0 := time.Now()
@@ -315,7 +376,11 @@ func init() {
 				_ = t0
 				_ = lastAnswered
 			} else {
-				t.Check("no_false_positive", recycled == 0, "a peer that answers every heartbeat saw %d keepalive-caused reconnect(s) over 30 intervals", recycled)
+				t.Check("no_false_positive", recycled == 0, "a peer that answers every heartbeat (latency %d units, interval %d, timeout %d) saw %d keepalive-caused reconnect(s) over 30 intervals", latencyU, cfg.KeepaliveU, cfg.KeepaliveTimeoutU, recycled)
+			}
+			// C08: one loss, one recovery — a recovery must not itself cause further recoveries
+			if strings.Contains(name, "recovers-once") {
+				t.Check("one_recovery_per_loss", p.Dials() <= 2 && atomic.LoadInt32(&t.afterRec) <= 1, "one keepalive-detected loss led to %d connections and %d after-reconnect callbacks", p.Dials(), atomic.LoadInt32(&t.afterRec))
 			}
 		}})
 	}
@@ -324,6 +389,10 @@ func init() {
 	kaScenario("c15/healthy-auth", true, true, always, false, false)
 	kaScenario("c15/healthy-after-recovery-noauth", true, false, always, true, false)
 	kaScenario("c15/healthy-after-recovery-resume", true, true, always, true, false)
+	kaScenario("c15/slow-peer", true, false, always, false, false)
+	kaScenario("c15/slow-peer-after-recovery", true, false, func(n, conn int) bool { return conn > 1 }, false, false)
+	kaScenario("c15/first-conn-dead-recovers-once", true, false, func(n, conn int) bool { return conn > 1 }, false, false)
+	kaScenario("c15/dead-peer-option-order", true, false, func(n, conn int) bool { return false }, false, true)
 	kaScenario("c15/dead-peer", true, false, func(n, conn int) bool { return false }, false, true)
 	kaScenario("c15/stops-after-3", true, false, func(n, conn int) bool { return conn > 1 || n <= 3 }, false, true)
 
